@@ -108,7 +108,29 @@ class Interp(HeapMixin, OpsMixin, StmtMixin, CallMixin):
             return VAny(t, k if k != "any" else None)
         raise E.Unsupported(f"cannot wrap {ty}")
 
+    def force(self, v):
+        """resolve a lazy Optional: forks the path (persistently) on None / not None the first time the value is used"""
+        if isinstance(v, VOpt):
+            if v.forced is not None:
+                return v.forced
+            run = self.run
+            if run.guard_depth > 0:
+                # inside a guarded region the guard usually settles the question: no fork, and nothing is cached beyond the region
+                if not run.feasible(v.isnone):
+                    return v.get()
+                if not run.feasible(z3.Not(v.isnone)):
+                    return NONE
+                if run.nopersist:
+                    return NONE if run.decide(v.isnone, f"{v.name} is None") else v.get()
+            if run.decide(v.isnone, f"{v.name} is None", persist=True):
+                v.forced = NONE
+            else:
+                v.forced = v.get()
+            return v.forced
+        return v
+
     def term_of(self, v, ty=None):
+        v = self.force(v)
         if ty is not None and ty[0] in ("any", "pyvalue", "astnode") and not isinstance(v, VAny):
             return self.inject_deep(v) if isinstance(v, (VRef, VTuple)) and not (isinstance(v, VRef) and v.kind == "obj") else self.inject(v)
         if isinstance(v, (VInt, VReal, VBool, VStr, VEnum, VAny)):
@@ -131,9 +153,11 @@ class Interp(HeapMixin, OpsMixin, StmtMixin, CallMixin):
         if k == "opt":
             b = z3.Bool(name + "#none")
             run.inputs[name + "#none"] = b
-            if run.decide(b, f"{name} is None", persist=True):
-                return NONE
-            return self.fresh(ty[1], name)
+            if ty[1][0] in ("union", "opt") or self.opt("eager_optionals"):
+                if run.decide(b, f"{name} is None", persist=True):
+                    return NONE
+                return self.fresh(ty[1], name)
+            return VOpt(b, (lambda: self.fresh(ty[1], name)), name, ty[1])
         if k == "union":
             i = run.choose([(str(t), None) for t in ty[1:]], f"type({name})", persist=True)
             v = self.fresh(ty[1 + i], name)
@@ -237,7 +261,7 @@ class Interp(HeapMixin, OpsMixin, StmtMixin, CallMixin):
                 # a pre-state object reached through a field or container: it satisfies its class invariants too
                 for _lbl, ex in self.verifier.class_clauses(self.reg.invariants, cls) + self.verifier.class_clauses(self.reg.config, cls):
                     try:
-                        run.assume(self.verifier.eval_bool(self, ex, E.Frame("<spec>", None, {}, None, "inv"), {"self": ref}))
+                        run.assume(self.verifier.eval_bool(self, ex, E.Frame("<spec>", None, {}, None, "inv"), {"self": ref}), persist=True)
                     except (E.Unsupported, E.PyExc):
                         pass
             return ref
